@@ -40,6 +40,62 @@ pub fn prim_job(job: &Value) -> Value {
                 let back = r.read_uint();
                 json!({"back": format!("{:x}", back), "same": back == v, "bytes": hex(&buf), "werr": werr, "rerr": r.has_error()})
             }
+            "data" => {
+                // a data value described as {t, s, i, a} (Rfsm.tla DataVals): write_data / read_data round trip
+                fn build(v: &Value) -> rufsm::datamodel::Data {
+                    use rufsm::datamodel::{create_data_arc, Data, SourceCode};
+                    let t = v.get("t").and_then(|x| x.as_str()).unwrap_or("");
+                    let s = v.get("s").and_then(|x| x.as_str()).unwrap_or("");
+                    let a: Vec<Value> = v.get("a").and_then(|x| x.as_array()).cloned().unwrap_or_default();
+                    match t {
+                        "null" => Data::Null(),
+                        "none" => Data::None(),
+                        "int" => Data::Integer(s.parse::<i64>().unwrap_or(0)),
+                        "dbl" => Data::Double(s.parse::<f64>().unwrap_or(f64::NAN)),
+                        "str" => Data::String(s.to_string()),
+                        "bool" => Data::Boolean(s == "true"),
+                        "err" => Data::Error(s.to_string()),
+                        "src" => Data::Source(SourceCode::new(s, v.get("i").and_then(|x| x.as_u64()).unwrap_or(0) as usize)),
+                        "arr" => Data::Array(a.iter().map(|x| create_data_arc(build(x))).collect()),
+                        "map" => Data::Map(a.iter().map(|e| {
+                            let k = e.get("s").and_then(|x| x.as_str()).unwrap_or("").to_string();
+                            let inner = e.get("a").and_then(|x| x.as_array()).and_then(|q| q.first()).cloned().unwrap_or(Value::Null);
+                            (k, create_data_arc(build(&inner)))
+                        }).collect()),
+                        _ => Data::None(),
+                    }
+                }
+                fn show(d: &rufsm::datamodel::Data) -> String {
+                    use rufsm::datamodel::Data;
+                    match d {
+                        Data::Source(s) => format!("S'{}'#{}", s.source, s.source_id),
+                        Data::Error(e) => format!("E'{}'", e),
+                        Data::Double(f) => format!("d{:?}", f),
+                        Data::Array(a) => format!("[{}]", a.iter().map(|x| show(&x.lock().unwrap())).collect::<Vec<_>>().join(",")),
+                        Data::Map(m) => {
+                            let mut ks: Vec<&String> = m.keys().collect();
+                            ks.sort();
+                            format!("{{{}}}", ks.iter().map(|k| format!("{}:{}", k, show(&m.get(*k).unwrap().lock().unwrap()))).collect::<Vec<_>>().join(","))
+                        }
+                        other => crate::expr::enc(other),
+                    }
+                }
+                let spec: Value = serde_json::from_str(job.get("value").and_then(|x| x.as_str()).unwrap_or("null")).unwrap_or(Value::Null);
+                let orig = build(&spec);
+                let werr;
+                {
+                    let mut w = DefaultProtocolWriter::new(&mut buf);
+                    w.write_data(&orig);
+                    w.write_uint(0x5a);
+                    w.close();
+                    werr = w.has_error();
+                }
+                let mut r = DefaultProtocolReader::new(buf.as_slice());
+                let back = r.read_data();
+                let sentinel = r.read_uint();
+                json!({"same": show(&back) == show(&orig) && sentinel == 0x5a, "orig": show(&orig), "back": show(&back), "tag": buf.first().copied(),
+                       "werr": werr, "rerr": r.has_error()})
+            }
             _ => {
                 let text = job.get("text").and_then(|x| x.as_str()).unwrap_or("").to_string();
                 let werr;
